@@ -96,20 +96,35 @@ def r_sign_handling(ck: Checker) -> None:
     func = ck.func(f"{G}.to_sympy")
     it = ck.interp(func)
     a = func.params()[1]
+    folded_cmp = not ck.prg.has_func(f"{G}._to_sympy_comparison")
     for callee in ("_to_sympy_comparison", "_to_sympy_bodyaggregate"):
+        if callee == "_to_sympy_comparison" and folded_cmp:
+            continue
         calls = resolved_calls(ck.prg, func, f"ngo.{G}.{callee}")
         ck.need(len(calls) == 1, f"to_sympy calls {callee}")
         neg = it.texts(calls[0], calls[0].args[1])
         ck.add(f"{callee}: operator is negated iff the literal's sign is Negation", neg == {f"{a}.sign == Sign.Negation"}, func, calls[0], f"neg argument {sorted(neg)}", "`not X < 3` is X >= 3; `not not X < 3` is X < 3")
-    cmp_ = ck.func(f"{G}._to_sympy_comparison")
-    c, neg = cmp_.params()[1], cmp_.params()[2]
-    ceq = resolved_calls(ck.prg, cmp_, f"ngo.{G}._to_equality")
-    ck.need(len(ceq) == 1, "the comparison is translated at one site")
-    got_c = {}
-    for flag in (True, False):
-        itf = ck.interp(cmp_, Pins.of(facts={neg: flag}))
-        got_c[flag] = {t.replace(" ", "") for t in itf.texts(ceq[0], ceq[0].args[1])} if itf.reachable(ceq[0]) else None
-    ck.add("comparison: op = negate_comparison(op) if neg else op", got_c[True] == {f"negate_comparison({c}[1])"} and got_c[False] == {f"{c}[1]"}, cmp_, ceq[0], f"operator under neg: {got_c[True]}, otherwise: {got_c[False]}", "")
+    if folded_cmp:
+        # the comparison helper was folded into to_sympy: the two obligations are decided together at the translation site
+        ceq = resolved_calls(ck.prg, func, f"ngo.{G}._to_equality")
+        ck.need(len(ceq) == 1, "the comparison is translated at one site")
+        got_s = {}
+        for sign in ("Negation", "NoSign", "DoubleNegation"):
+            itf = ck.interp(func, Pins.of(vals={f"{a}.sign": f"Sign.{sign}", f"{a}.atom.ast_type": "ASTType.Comparison"}))
+            got_s[sign] = {t.replace(" ", "") for t in itf.texts(ceq[0], ceq[0].args[1])} if itf.reachable(ceq[0]) else None
+        opx = f"{a}.atom.guards[0].comparison"
+        ok_f = got_s["Negation"] == {f"negate_comparison({opx})"} and got_s["NoSign"] == {opx} and got_s["DoubleNegation"] == {opx}
+        ck.add("_to_sympy_comparison: operator is negated iff the literal's sign is Negation", ok_f, func, ceq[0], f"operator by sign: {got_s}", "`not X < 3` is X >= 3; `not not X < 3` is X < 3")
+    else:
+        cmp_ = ck.func(f"{G}._to_sympy_comparison")
+        c, neg = cmp_.params()[1], cmp_.params()[2]
+        ceq = resolved_calls(ck.prg, cmp_, f"ngo.{G}._to_equality")
+        ck.need(len(ceq) == 1, "the comparison is translated at one site")
+        got_c = {}
+        for flag in (True, False):
+            itf = ck.interp(cmp_, Pins.of(facts={neg: flag}))
+            got_c[flag] = {t.replace(" ", "") for t in itf.texts(ceq[0], ceq[0].args[1])} if itf.reachable(ceq[0]) else None
+        ck.add("comparison: op = negate_comparison(op) if neg else op", got_c[True] == {f"negate_comparison({c}[1])"} and got_c[False] == {f"{c}[1]"}, cmp_, ceq[0], f"operator under neg: {got_c[True]}, otherwise: {got_c[False]}", "")
     agg = ck.func(f"{G}._to_sympy_bodyaggregate")
     ita = ck.interp(agg)
     ag, ng = agg.params()[1], agg.params()[2]
@@ -354,11 +369,19 @@ def r_unify_table(ck: Checker) -> None:
            "`#const c=5.` (or -c c=5) makes the tuples (L,c) and (L,5) coincide", rule="C02.TABLE.const")
     seq = ck.func("utils.ast:potentially_unifying_sequence")
     its = ck.interp(seq)
+    # (the normal form writes `return all(f(x) for x in xs)` as the search loop it abbreviates)
+    p0, p1 = seq.params()[0], seq.params()[1]
     r = [x for x in returns_of(seq) if is_const(x.value, False)]
-    ck.add("sequences of different length cannot unify", len(r) == 1 and its.holds(r[0], f"len({seq.params()[0]}) != len({seq.params()[1]})"), seq, seq.node, "`return False` only under a length mismatch", "")
+    mismatch = [x for x in r if its.holds(x, f"len({p0}) != len({p1})")]
+    ck.add("sequences of different length cannot unify", len(mismatch) == 1 and enclosing_loop(seq, mismatch[0]) is None, seq, seq.node, f"`return False` under a length mismatch before anything else: {len(mismatch)}", "")
+    pos = [x for x in r if x not in mismatch]
+    okp = bool(pos)
+    for x in pos:
+        lp = enclosing_loop(seq, x)
+        okp = okp and lp is not None and same(unparse(lp.iter), f"zip({p0}, {p1})") and isinstance(lp.target, ast.Name) and its.holds(x, f"not potentially_unifying(*{unparse(lp.target)})")
     rr = [x for x in returns_of(seq) if not is_const(x.value, False)]
-    ok = len(rr) == 1 and same(unparse(rr[0].value), f"all(map(lambda x: potentially_unifying(*x), zip({seq.params()[0]}, {seq.params()[1]})))")  # type: ignore[arg-type]
-    ck.add("sequences unify iff all positions may unify", ok, seq, seq.node, f"`{fmt(rr[0]) if rr else None}`", "")
+    ok = okp and len(rr) == 1 and is_const(rr[0].value, True) and enclosing_loop(seq, rr[0]) is None
+    ck.add("sequences unify iff all positions may unify", ok, seq, seq.node, f"'cannot unify' inside the loop over zip({p0}, {p1}) exactly when a position cannot: {okp}; other returns `{[fmt(x) for x in rr]}`", "")
 
 
 def r_minimize_terms(ck: Checker) -> None:
